@@ -283,6 +283,21 @@ func c06Scenarios(tier string) []*world.Scenario {
 	// the fragments of pipelined split MSETs on their way to a node that reads slowly (more than 64 KiB parked, drained in
 	// pieces, further fragments queued meanwhile): the node receives exactly the fragments
 	out = append(out, SlowBackendOverflow("C06", 5, 40000, 2))
+	// one multi-key request whose keys fall into exactly 1023 / 1024 / 1025 / 2048 distinct slots of ONE node (that many
+	// fragments are queued for one connection in one loop round)
+	{
+		initSlotKeys()
+		for _, n := range []int{1023, 1024, 1025, 2048} {
+			var ks, vs []string
+			for sl := 0; sl < n; sl++ {
+				ks = append(ks, slotKeys[sl])
+				vs = append(vs, "v")
+			}
+			mk("mget", ks, nil)
+			mk("del", ks, nil)
+			mk("mset", ks, vs)
+		}
+	}
 	const sbatch = 40
 	for i := 0; i < len(sweep); i += sbatch {
 		j := i + sbatch
